@@ -54,7 +54,8 @@ impl<E> ClientEventQueue<E> {
     }
 
     pub(super) fn clear(&mut self) {
-        while let Some((_, messages)) = self.map.pop_first() {
+        while let Some((_, mut messages)) = self.map.pop_first() {
+            messages.clear();
             self.buffer.push(messages);
         }
     }
